@@ -207,6 +207,12 @@ func initModels() {
 		c := m.fr.x.c
 		return parseInt(c, m, m.args[0], c.BV(10, 64), c.BV(0, 64))
 	}}
+	// ---- bart.Lite: membership in an (immutable while in use) prefix set is a deterministic function of the table's
+	// address and the IP address; contracts name it as liteContains(table, ip) ----
+	models["github.com/gaissmai/bart.(*liteTable).Contains"] = &model{note: "bart.Lite.Contains modelled as an uninterpreted function of (table, address); tables are not modified while in use", fn: func(m *mctx) *Term {
+		c := m.fr.x.c
+		return c.UF("bart_lite_contains", SBool, m.args[0], m.args[1])
+	}}
 	models["bytes.Equal"] = &model{fn: func(m *mctx) *Term {
 		x := m.fr.x
 		c := x.c
